@@ -162,6 +162,9 @@ pub fn explore(args: &[String]) -> i32 {
   let watchdog = Duration::from_secs(arg_u64(args, "--watchdog", 60));
   let t0 = Instant::now();
 
+  // every lazily built map of this process is laid out under a seed of its own, as in a real
+  // deployment where RandomState differs per process (set before the library is first touched)
+  tyme4rs::tyme::verif::set_hash_seed(mix(mix(seed, 0x696e6974), worker) | 1);
   install_hooks();
   let report_key: Option<String> = arg(args, "--report-key").map(|s| s.to_string());
   let lock_cal = calibrate_locks(watchdog);
@@ -697,93 +700,54 @@ pub fn sweep(args: &[String]) -> i32 {
   0
 }
 
+/// Hash-order sub-check, one process per hasher seed: the seed is set BEFORE the library is
+/// touched for the first time, so every lazily built map of this process is laid out under it
+/// (exactly what differs between two real processes). Prints the digests of every lunar year's
+/// attributes and of the month lists of sampled years; the driver compares processes.
 pub fn hashorder(args: &[String]) -> i32 {
   let seed = arg_u64(args, "--seed", 20260926);
-  let orders = arg_u64(args, "--orders", 8);
+  let index = arg_u64(args, "--index", 0);
   let out = arg(args, "--out");
   let watchdog = Duration::from_secs(arg_u64(args, "--watchdog", 30));
   let t0 = Instant::now();
+  let hs: u64 = if index == 0 { 0 } else { mix(mix(seed, 0x68617368), index) | 1 };
+  tyme4rs::tyme::verif::set_hash_seed(hs);
   install_hooks();
-  reset_library();
+  // fingerprint of the iteration order this seed produces for a 12-key map like the leap table
+  let mut m: tyme4rs::tyme::verif::HashMap<usize, u8> = tyme4rs::tyme::verif::HashMap::new();
+  for k in 1..=12usize {
+    m.insert(k, 0);
+  }
+  let mut order_fp = String::new();
+  for (k, _) in m.iter() {
+    order_fp.push_str(&format!("{}.", k));
+  }
   let k_misc = kind_by_name("LY.misc").unwrap();
   let k_months = kind_by_name("LY.months").unwrap();
-  let years: Vec<Query> = (-1..=9999i64).map(|y| Query::new(k_misc, vec![y])).collect();
+  let mut queries: Vec<Query> = (-1..=9999i64).map(|y| Query::new(k_misc, vec![y])).collect();
+  // the same sample in every process: a function of the seed only
+  let mut rng = Rng::new(mix(seed, 0x73616d70));
+  for i in 0..240 {
+    let y = if i < 120 { rng.range(0, 9999) } else { rng.range(9700, 9999) };
+    queries.push(Query::new(k_months, vec![y]));
+    queries.push(Query::new(K_LM_FROM_YM, vec![y, rng.range(1, 12)]));
+  }
   let mut violations: Vec<String> = Vec::new();
-  let mut evaluations = 0u64;
-  let mut seeds_used: Vec<u64> = Vec::new();
-  let mut distinct_orders: HashSet<u64> = HashSet::new();
-  let mut rng = Rng::new(mix(seed, 0x68617368));
-  let mut p_violation = |why: String, done: usize, qs: &[Query], hs: u64, violations: &mut Vec<String>| {
-    let upto = (done + 1).min(qs.len());
-    violations.push(format!("{{\"obligation\":\"P\",\"key\":\"\",\"hash_seed\":{},\"detail\":\"{}\",\"history\":\"{}\"}}", hs, esc(&why), esc(&batch_script(&qs[done.min(upto - 1)..upto], hs))));
-  };
-  let base = match batch(&years, 0, true, watchdog) {
-    Ok(b) => b,
-    Err((why, done)) => {
-      p_violation(why, done, &years, 0, &mut violations);
-      Vec::new()
+  let mut answers: Vec<String> = Vec::new();
+  match batch(&queries, hs, true, watchdog) {
+    Ok(ans) => {
+      for (c, d) in ans {
+        answers.push(format!("\"{}{:016x}\"", c, d));
+      }
     }
-  };
-  evaluations += base.len() as u64;
-  if !base.is_empty() {
-    for _ in 0..orders {
-      let hs = rng.next_u64() | 1;
-      seeds_used.push(hs);
-      tyme4rs::tyme::verif::set_hash_seed(hs);
-      // fingerprint of the iteration order this seed produces for a 12-key map like the table's
-      let mut m: tyme4rs::tyme::verif::HashMap<usize, u8> = tyme4rs::tyme::verif::HashMap::new();
-      for k in 1..=12usize {
-        m.insert(k, 0);
-      }
-      let mut fp = FNV0;
-      for (k, _) in m.iter() {
-        fp = fnv(fp, &[*k as u8]);
-      }
-      distinct_orders.insert(fp);
-      match batch(&years, hs, true, watchdog) {
-        Err((why, done)) => {
-          p_violation(why, done, &years, hs, &mut violations);
-          break;
-        }
-        Ok(ans) => {
-          for (k, a) in ans.iter().enumerate() {
-            evaluations += 1;
-            if *a != base[k] && violations.len() < 8 {
-              violations.push(format!("{{\"obligation\":\"H\",\"key\":\"{}\",\"hash_seed\":{},\"detail\":\"differs from the answer under hash seed 0\"}}", esc(&years[k].key()), hs));
-            }
-          }
-        }
-      }
-      // the months of a year depend on its leap month: a sample through the memo as well
-      let sample: Vec<Query> = (0..200).map(|_| Query::new(k_months, vec![rng.range(0, 9999)])).collect();
-      let a = batch(&sample, hs, true, watchdog);
-      let b = batch(&sample, 0, true, watchdog);
-      match (a, b) {
-        (Ok(a), Ok(b)) => {
-          for k in 0..sample.len() {
-            evaluations += 2;
-            if a[k] != b[k] && violations.len() < 8 {
-              violations.push(format!("{{\"obligation\":\"H\",\"key\":\"{}\",\"hash_seed\":{},\"detail\":\"differs from the answer under hash seed 0\"}}", esc(&sample[k].key()), hs));
-            }
-          }
-        }
-        (Err((why, done)), _) => {
-          p_violation(why, done, &sample, hs, &mut violations);
-          break;
-        }
-        (_, Err((why, done))) => {
-          p_violation(why, done, &sample, 0, &mut violations);
-          break;
-        }
-      }
-      if violations.len() >= 8 {
-        break;
-      }
+    Err((why, done)) => {
+      let upto = (done + 1).min(queries.len());
+      violations.push(format!("{{\"obligation\":\"P\",\"key\":\"\",\"hash_seed\":{},\"detail\":\"{}\",\"history\":\"{}\"}}", hs, esc(&why), esc(&batch_script(&queries[done.min(upto - 1)..upto], hs))));
     }
   }
-  tyme4rs::tyme::verif::set_hash_seed(0);
+  let keys: Vec<String> = queries.iter().map(|q| format!("\"{}\"", esc(&q.key()))).collect();
   let mut o = String::new();
-  let _ = write!(o, "{{\"mode\":\"hashorder\",\"seed\":{},\"orders\":{},\"distinct_iteration_orders\":{},\"years\":10001,\"evaluations\":{},\"hash_seeds\":{},\"wall_s\":{:.3},\"violations\":[{}]}}\n", seed, seeds_used.len(), distinct_orders.len(), evaluations, jlist_u64(&seeds_used), t0.elapsed().as_secs_f64(), violations.join(","));
+  let _ = write!(o, "{{\"mode\":\"hashorder\",\"seed\":{},\"index\":{},\"hash_seed\":{},\"iteration_order_of_12_keys\":\"{}\",\"evaluations\":{},\"wall_s\":{:.3},\"keys\":[{}],\"answers\":[{}],\"violations\":[{}]}}\n", seed, index, hs, order_fp, answers.len(), t0.elapsed().as_secs_f64(), if index == 0 { keys.join(",") } else { String::new() }, answers.join(","), violations.join(","));
   write_out(out, &o);
   0
 }
